@@ -211,6 +211,32 @@ theorem addLru_le (s : State) (stems : LRU) (flag : Bool) (h0 : 0 < s.trie.size)
   rw [hc] at hle2 hlt2
   exact ⟨hle.trans hle2, hlt2⟩
 
+@[simp] theorem Hist.visit_created (h : Hist) (c : Cell) (pos : Nat) : (h.visit c pos).created = h.created := by
+  unfold Hist.visit; split <;> split <;> rfl
+
+theorem addLruDescend_created (flag : Bool) : ∀ (stems : List Stem) (s : State) (node : Nat) (ex : Bool) (pos : Nat) (h : Hist),
+    (addLruDescend flag s stems node ex pos h).2.2.2.created = h.created := by
+  intro stems
+  induction stems with
+  | nil => intro s node ex pos h; rfl
+  | cons stem rest ih =>
+    intro s node ex pos h
+    rcases he : s.ensureStem node ex stem with ⟨s1, n⟩
+    simp only [addLruDescend, he]
+    split
+    · rw [ih]; simp
+    · simp
+
+/-- `add_lru` never reports a created page -/
+theorem addLru_created (s : State) (stems : LRU) (flag : Bool) : (s.addLru stems flag).2.2.created = false := by
+  unfold addLru
+  rcases hd : addLruDescend flag s stems 1 (decide (s.trie.size > 1)) 0 {} with ⟨s1, node, rest, h⟩
+  have := addLruDescend_created flag stems s 1 (decide (s.trie.size > 1)) 0 {}
+  rw [hd] at this
+  simp only at this ⊢
+  rcases addLruCreate flag s1 rest node with ⟨s2, node2⟩
+  exact this
+
 theorem cellLe_flags_page (c : Cell) (cr : Bool) :
     CellLe c { c with flags := { c.flags with page := true, crawled := c.flags.crawled || cr } } :=
   ⟨rfl, rfl, rfl, rfl, fun _ => rfl, fun h => by simp [h], id, fun _ => rfl, fun _ => rfl, fun _ => rfl⟩
